@@ -275,18 +275,20 @@ def Kind.flags (k : Kind) (inOuter inInner : Bool) : Bool × Bool :=
   | .okl o i _ _ => (inOuter || o, inInner || i)
   | _ => (inOuter, inInner)
 
+/-- the checks on the variable a statement declares -/
+def declHere (inOuter inInner : Bool) : Kind → Bool
+  | .decl (.shared dims) => sharedDeclOk dims && usageOk inOuter inInner true
+  | .decl .exclusive => usageOk inOuter inInner true
+  | _ => true
+
 def declsOk (inOuter inInner : Bool) : Tree → Bool
   | .nil => true
   | .node n kids next =>
     let (fo, fi) := n.kind.flags inOuter inInner
     -- expressions attached to an @outer/@inner loop are its header statements: `up` is the loop
     let usesOk := n.uses.all (fun _ => usageOk fo fi false)
-    let own := match n.kind with
-      | .decl (.shared dims) => sharedDeclOk dims && usageOk inOuter inInner true
-      | .decl .exclusive => usageOk inOuter inInner true
-      | _ => true
     -- `isValid &= …` : every check is evaluated
-    own && usesOk && declsOk fo fi kids && declsOk inOuter inInner next
+    declHere inOuter inInner n.kind && usesOk && declsOk fo fi kids && declsOk inOuter inInner next
 
 /-! ## okl::kernelHasValidLoopBreakAndContinue -/
 
@@ -312,14 +314,14 @@ def directlyInOkl (isCont : Bool) : List Anc → Bool
   | .seqFor :: _ => false
   | .other :: r => directlyInOkl isCont r
 
+def breakHere (anc : List Anc) : Kind → Bool
+  | .brk => !directlyInOkl false anc
+  | .cont => !directlyInOkl true anc
+  | _ => true
+
 def breaksOk (anc : List Anc) : Tree → Bool
   | .nil => true
-  | .node n kids next =>
-    let own := match n.kind with
-      | .brk => !directlyInOkl false anc
-      | .cont => !directlyInOkl true anc
-      | _ => true
-    own && breaksOk (n.kind.anc :: anc) kids && breaksOk anc next
+  | .node n kids next => breakHere anc n.kind && breaksOk (n.kind.anc :: anc) kids && breaksOk anc next
 
 /-! ## okl::kernelIsValid -/
 
